@@ -288,6 +288,10 @@ func (s *(SA)) Reset2() {
 // an unannotated method of an unnamed interface type that shares the method's name
 var Resetter interface{ Reset2() }
 
+// a method of the @testonly type itself, carrying the method annotation
+//«annM»
+func (h Helper) Get() int { return h.X }
+
 type Outer struct {
 	S
 }
@@ -400,6 +404,14 @@ func Use2() {
 }
 `
 
+// two diagnostics with different codes at the SAME position: the literal and the method call both start at "Helper"
+const c03SrcE12 = `package d
+
+func SamePos() int {
+	return Helper{X: 1}.Get() // E12-SAMEPOS
+}
+`
+
 const c03SrcE3 = `package d
 
 func Local() int {
@@ -433,7 +445,7 @@ func ZZC03Edge() {
 	files := []nd.File{{Pkg: "zzmod/d", Name: "d.go", Src: c03SrcED}, {Pkg: "zzmod/d", Name: "e1.go", Src: c03SrcE1}, {Pkg: "zzmod/d", Name: "e2.go", Src: c03SrcE2},
 		{Pkg: "zzmod/d", Name: "e2b.go", Src: c03SrcE2b}, {Pkg: "zzmod/d", Name: "e3.go", Src: c03SrcE3}, {Pkg: "zzmod/u", Name: "u.go", Src: c03SrcEU},
 		{Pkg: "zzmod/d", Name: "e4.go", Src: c03SrcE4}, {Pkg: "zzmod/d", Name: "e5.go", Src: c03SrcE5}, {Pkg: "zzmod/d", Name: "e6.go", Src: c03SrcE6}, {Pkg: "zzmod/d", Name: "e7.go", Src: c03SrcE7}, {Pkg: "zzmod/d", Name: "e8.go", Src: c03SrcE8}, {Pkg: "zzmod/d", Name: "e9.go", Src: c03SrcE9},
-		{Pkg: "zzmod/d", Name: "e10.go", Src: c03SrcE10}, {Pkg: "zzmod/d", Name: "e11.go", Src: c03SrcE11}, {Pkg: "zzmod/v", Name: "v1.go", Src: c03SrcV1}, {Pkg: "zzmod/v", Name: "v2.go", Src: c03SrcV2}}
+		{Pkg: "zzmod/d", Name: "e10.go", Src: c03SrcE10}, {Pkg: "zzmod/d", Name: "e11.go", Src: c03SrcE11}, {Pkg: "zzmod/d", Name: "e12.go", Src: c03SrcE12}, {Pkg: "zzmod/v", Name: "v1.go", Src: c03SrcV1}, {Pkg: "zzmod/v", Name: "v2.go", Src: c03SrcV2}}
 	prog := nd.LoadProgram(files, holes)
 	cfg := config.Default()
 	rd := Analyze(prog, cfg, "zzmod/d", Facts{}, "tonl")
@@ -443,7 +455,15 @@ func ZZC03Edge() {
 	tW := nd.HasPrefix(annW, " @testonly")
 	tM := nd.HasPrefix(annM, " @testonly")
 	fd, f1, f2, f2b, fu := "/zz/zzmod/d/d.go", "/zz/zzmod/d/e1.go", "/zz/zzmod/d/e2.go", "/zz/zzmod/d/e2b.go", "/zz/zzmod/u/u.go"
-	CheckExact(rd.Diags, []Expect{
+	// the receiver of Helper's own method mentions the @testonly type inside the declaring package's non-test file: whether
+	// that is a "use" is not said by the property — left open by dropping that line
+	var rdDiags []Diag
+	for _, d := range rd.Diags {
+		if !(d.File == fd && d.Line == nd.LineOf(c03SrcED, "func (h Helper) Get")) {
+			rdDiags = append(rdDiags, d)
+		}
+	}
+	CheckExact(rdDiags, []Expect{
 		{fd, nd.LineOf(c03SrcED, "E-NAMESAKE-METHOD-BODY"), "TONL02", tF},
 		{fd, nd.LineOf(c03SrcED, "E-NAMESAKE-FUNC-BODY"), "TONL03", tM},
 		{f1, nd.LineOf(c03SrcE1, "E-NEST-OUTER"), "TONL02", tW},
@@ -470,6 +490,8 @@ func ZZC03Edge() {
 		// through an alias of a composite type, also nested inside another composite type (C13)
 		{"/zz/zzmod/d/e10.go", nd.LineOf(c03SrcE10, "E10-ALIAS-OF-COMPOSITE"), "TONL01", tH},
 		{"/zz/zzmod/d/e11.go", nd.LineOf(c03SrcE11, "E11-NESTED-ALIAS-OF-COMPOSITE"), "TONL01", tH},
+		{"/zz/zzmod/d/e12.go", nd.LineOf(c03SrcE12, "E12-SAMEPOS"), "TONL01", tH},
+		{"/zz/zzmod/d/e12.go", nd.LineOf(c03SrcE12, "E12-SAMEPOS"), "TONL03", tM},
 		{f2, nd.LineOf(c03SrcE2, "E2-ELIDED-PTR"), "TONL01", tH},
 		{f2b, nd.LineOf(c03SrcE2b, "E2B-ELIDED-MAP"), "TONL01", tH},
 		// e3.go: the only Helper there is a function-local type: nothing
